@@ -272,6 +272,15 @@ def removeNode (r : Root) (id : Id) : Root :=
     let r := this.dependents.foldl (fun r d => r.modify d fun n => { n with dependencies := n.dependencies.filter (· != id) }) r
     this.dependencies.foldl (fun r d => r.modify d fun n => { n with dependents := n.dependents.filter (· != id) }) r
 
+/-- first step of `NodeHandle::dispose` (repair D19): the node leaves the subscriber lists of everything
+it depends on and forgets its dependencies, so that none of its own cleanups can re-run it -/
+def unsubscribe (r : Root) (id : Id) : Root :=
+  match r.get? id with
+  | none => r
+  | some this =>
+    let r := this.dependencies.foldl (fun r d => r.modify d fun n => { n with dependents := n.dependents.filter (· != id) }) r
+    r.modify id fun n => { n with dependencies := [] }
+
 /-- how a body folds an observed value into its accumulator (bounded, so that results stay small) -/
 def mix (acc v : Int) : Int := (3 * acc + v + 1) % 1009
 
@@ -610,7 +619,7 @@ def propagateUpdates : Nat → Root → Id → Except Panic Root
 def disposeNode : Nat → Root → Id → Except Panic Root
   | 0, _, _ => .error .fuel
   | fuel + 1, r, id =>
-    match disposeChildren fuel r id with
+    match disposeChildren fuel (unsubscribe r id) id with
     | .error e => .error e
     | .ok r => .ok (removeNode r id)
 
